@@ -19,6 +19,8 @@ CHECKS = {
          "independence is checked by keeping the other side's projection and comparing it after every later step"),
  "C13": ("translation_validation", "4", "per-program validation of mk_fun/gen_fun output against Manager.tla's GenFun action (defined as sequential assignment; TLC asserts the batch formulation agrees)",
          "1- and 2-argument setters over undefined leaves at every reachable state; source text parsed line by line; structural-cycle orders are the recorded known finding"),
+ "C20": ("exploration", "4", "the TLC-generated programs of Manager.tla executed under {compiled, pure Python} x PYTHONHASHSEED values; per-step transcripts (exception class, contents, dump() text) must be identical in every configuration, and each run must conform to the spec",
+         "quick: 2 builds x 3 seeds; thorough: 2 x 16 seeds and hostile keys; expression-term corpus is covered by the Expr engine's own cross-configuration digests"),
  "C07": ("model_checking", "6", "TableIndex.tla (index column + lazily built cache) checked with TLC; every generated transition replayed on a real Table, lookups compared with the spec's Resolve",
          "3-name alphabet, 0..3 rows exhaustive (4 thorough), node identity includes last probed snapshot so lookup/update interleavings stay distinct"),
  "C08": ("model_checking", "6", "RowSel.tla: the selector semantics as pure TLA+ operators; TLC enumerates every (table, selector[, selector]) case with its expected rows and each case is executed on a real Table (rows / rows.rows / indices / mask) under several hash seeds",
